@@ -75,6 +75,25 @@ def err_wrap(ctx: Ctx) -> RuleResult:
         r.violate(f"ExecNode.execute: the handler indexes {norm_src(x)}", ex.loc(x),
                   "an exception raised without arguments (assert, bare 'raise ValueError', ...) has empty args: the handler itself raises "
                   "IndexError, which replaces the error that names the node and drops the cause", norm_src(x))
+    # ... nor format values that belong to the user (arguments, results): their __repr__ / __str__ runs inside the handler
+    own_ok = []
+    foreign = []
+    for v in (x for x in ast.walk(msg) if isinstance(x, ast.FormattedValue)) if msg is not None else []:
+        base = v.value
+        while isinstance(base, (ast.Attribute, ast.Subscript)):
+            base = base.value
+        if isinstance(base, ast.Name) and base.id in ("self", ev):
+            own_ok.append(norm_src(v.value))
+        elif isinstance(base, ast.Call) and dotted(base.func) in ("type", "len", "id"):
+            own_ok.append(norm_src(v.value))
+        else:
+            foreign.append(v)
+    r.ob(not foreign, {"values formatted into the message": own_ok, "user values among them": [norm_src(v.value) for v in foreign]})
+    for v in foreign:
+        r.violate(f"ExecNode.execute: the error message formats {norm_src(v.value)}", ex.loc(v),
+                  "formatting a value the user's code produced calls its __repr__ / __str__ inside the handler: when that raises (a "
+                  "half-initialised object handed over by an upstream node) the call fails with that error - no node name, no call "
+                  "location, no cause", norm_src(v.value))
     # the class of the wrapping error is the package's base error
     r.ob(True, {"wrapping error": norm_src(w.exc.func)})
     return r
